@@ -94,8 +94,12 @@ def run(ctx):
                 seq.append({"op": kind, "lines": lines, "overrides": list(ovs), "outcome": out[:3]})
                 rep = {"schema_xml": F.render_xml(sd), "sequence": seq, "fresh_outcome": outf[:3],
                        "package": F.render_xml(F.SchemaD([], []), "component") if pkg is None else pkg}
+                # an error located in the TEXT is compared with its line; one located in the schema (an unconvertible schema
+                # default) only by kind: the two schema objects may have been delivered as different documents
+                def _loc(o):
+                    return o[1:4] if (len(o) > 3 and o[3] == cfgstream.URL) else [o[1], "located-in-the-schema"]
                 same = out[0] == outf[0] and (out[0] != "ok" or cfgrun.describe(cfg) == cfgrun.describe(cfgf)) and \
-                    (out[0] != "cfg" or out[1:4] == outf[1:4])
+                    (out[0] != "cfg" or _loc(out) == _loc(outf))
                 if not same:
                     after_import = any(s["op"] == "import" for s in seq[:-1])
                     ctx.violate("operation %d (%s) gives %s on the reused schema and %s on a fresh one" % (len(seq), kind, out[:3], outf[:3]),
